@@ -4,8 +4,9 @@ import PyxModel.Sql.Printer
   `ModelLoader.build_metamodel` (xtuml/load.py) with the parts of xtuml/meta.py it calls
   (`define_class`, `define_unique_identifier`, `define_association` + `formalize`, `MetaClass.new`,
   `default_value`), as far as classes, identifiers, associations, rows and the OUTCOME are concerned.
-  The fifth phase (`populate_connections`: links recomputed from key values) raises nothing and is
-  modelled elsewhere (C03); rows keep the values the INSERT statements carry.
+  Of the fifth phase (`populate_connections`: links recomputed from key values) only the one place where it can raise
+  is modelled here (`_is_null`); the links are modelled in PyxModel/Sql/Links.lean (and C03); rows keep the values the
+  INSERT statements carry.
 
   Phase order of `populate`: classes, unique identifiers, associations, instances, connections.
   The first exception ends the build:
@@ -15,12 +16,26 @@ import PyxModel.Sql.Printer
               UnknownClassException (association / identifier / …), MetaException (unknown type in `new`)
     parsing : ParsingException (a value that `deserialize_value` cannot read for its column type;
               a named INSERT whose numbers of names and values differ)
+    builtin : a built-in exception of Python -- the outcome the property FORBIDS.  The places where the code can raise one
+              are explicit in the model, each with the reason it cannot be reached (Proofs/SqlBuildTotal.lean):
+                `stmt.values[idx]` of a named INSERT (IndexError)           -- `namedCells`
+                `default_value(None)` -> `None.upper()` for an inferred class one of whose values
+                   `guess_type_name` cannot classify (AttributeError)       -- `guessOk`
+                `_is_null` -> `len(value)` on a falsy non-string value of an attribute whose type, looked up
+                   by upper-cased name, is STRING (TypeError)               -- `connRaises`
+              (`formalize` -> `alt_prop.fget` no longer raises since 6c6075a: a class attribute that is no property is ignored.)
+    unmodelled : an identifier of the form `__x__` is used where Python makes it an attribute of an object or a class
+              (attribute names, named INSERT columns, association keys): what happens depends on the name (`__class__`,
+              `__dict__`, `__hash__` … raise TypeError / AttributeError / RecursionError, `__foo__` does not).  The model
+              does not say; this is the open finding `build-builtin:dunder-identifier`, the one reachable case.
 -/
 namespace Pyx.Sql
 
 inductive BuildErr where
   | parseErr
   | metaErr
+  | builtinErr
+  | unmodelled
   deriving DecidableEq, Repr
 
 /-- what `inst.__dict__[name]` holds after `populate_instances` -/
@@ -160,7 +175,7 @@ def namedCells (u : UC) (names : List Name) (values : List Text) : List (Name ×
     match indexOfUpper u (u.upper name) names 0 with
     | some idx =>
       match values[idx]? with
-      | none => .error .parseErr            -- unreachable: lengths were compared first
+      | none => .error .builtinErr          -- `stmt.values[idx]`: IndexError (lengths were compared first: `namedCells_no_builtin`)
       | some v =>
         match deserialize u ty v with
         | none => .error .parseErr
@@ -189,6 +204,13 @@ def inferOk (u : UC) (s : BState) (kind : Name) (named : Bool) (ns : List Name) 
   | some _ => true
   | none => attrNamesOk u (inferredFor u named ns values)
 
+/-- `guess_type_name` returns a type name for every value of an INSERT that creates its class (otherwise the class gets
+    the type `None`, and `MetaClass.new` -> `default_value(None)` raises AttributeError from `None.upper()`) -/
+def guessOk (u : UC) (s : BState) (kind : Name) (values : List Text) : Bool :=
+  match s.find? u kind with
+  | some _ => true
+  | none => values.all (fun v => (guessType u v).isSome)
+
 /-- `if stmt.kind.upper() not in metamodel.metaclasses: _populate_matching_class(...)`, when `inferOk` -/
 def ensureClass (u : UC) (s : BState) (kind : Name) (named : Bool) (ns : List Name) (values : List Text) : BState :=
   match s.find? u kind with
@@ -204,6 +226,7 @@ def popInstance (u : UC) (s : BState) (kind : Name) (values : List Text) (names 
     Except BuildErr BState :=
   if isNamed names && (names.getD []).length != values.length then .error .parseErr else
   if !inferOk u s kind (isNamed names) (names.getD []) values then .error .metaErr else
+  if !guessOk u s kind values then .error .builtinErr else
   match (ensureClass u s kind (isNamed names) (names.getD []) values).find? u kind with
   | none => .error .metaErr                   -- unreachable
   | some c =>
@@ -223,8 +246,67 @@ def popInstances (u : UC) : List Stmt → BState → Except BuildErr BState
     | .error e => .error e
   | _ :: rest, s => popInstances u rest s
 
-/-- `build_metamodel` (phases 1–4; phase 5 raises nothing) -/
-def build (u : UC) (stmts : List Stmt) : Except BuildErr BState :=
+/-! ### phase 5, as far as it can raise -/
+
+def Val.isStr : Val → Bool
+  | .str _ => true
+  | _ => false
+
+/-- `if value: return False` -/
+def Val.truthy : Val → Bool
+  | .bool b => b
+  | .int z => z != 0
+  | .real _ micro => micro != 0
+  | .str s => !s.isEmpty
+  | .id n => n != 0
+
+/-- type name and cell of the attribute that `getattr(inst, key)` reads and whose type `_is_null` looks up: the first one
+    whose upper-cased name is that of the key.  (`_is_null` first tries `inst.__dict__[key]` with the exact name; as no two
+    attribute names of a class coincide after upper-casing -- `attrNamesOk`, checked by `define_class` -- both find the
+    same attribute.) -/
+def nullCell (u : UC) (uname : Text) : List (Name × Name) → List Cell → Option (Name × Option Cell)
+  | [], _ => none
+  | (n, ty) :: rest, row => if u.upper n = uname then some (ty, row.head?) else nullCell u uname rest row.tail
+
+/-- does `_is_null(inst, key)` raise?  It does (`len(value)`: TypeError) when the value is falsy, not `None`, not a string,
+    and the type of the attribute is STRING.  An attribute without a value in `__dict__` reads `None` (a referential
+    attribute reads through links, and an instance with an unset key cell has none yet). -/
+def isNullRaises (u : UC) (c : ClassB) (row : List Cell) (key : Name) : Bool :=
+  match nullCell u (u.upper key) c.attrs row with
+  | some (ty, some (.val x)) => !x.truthy && tyOfName u ty == some .STRING && !x.isStr
+  | _ => false                     -- no such attribute, `None`, or the default `''` of a STRING attribute
+
+/-- `compute_index_key` / `compute_lookup_key` over every instance of a class.  (Python leaves the key loop at the first
+    null key; the model looks at every key, which can only add failures.) -/
+def classKeysRaise (u : UC) (s : BState) (kind : Name) (keys : List Name) : Bool :=
+  match s.find? u kind with
+  | none => false
+  | some c => c.rows.any (fun row => keys.any (isNullRaises u c row))
+
+/-- does `populate_connections` raise? -/
+def connRaises (u : UC) (s : BState) : Bool :=
+  s.assocs.any (fun a => classKeysRaise u s a.tgtKind a.tgtKeys || classKeysRaise u s a.srcKind a.srcKeys)
+
+/-- phase 5: `populate_connections` changes neither classes, identifiers, associations nor rows -/
+def popConnections (u : UC) (s : BState) : Except BuildErr BState :=
+  if connRaises u s then .error .builtinErr else .ok s
+
+/-! ### identifiers that collide with Python object internals -/
+
+/-- `__\w+__` -/
+def isDunder (n : Name) : Bool := decide (5 ≤ n.length) && n.take 2 == ['_', '_'] && (n.reverse.take 2) == ['_', '_']
+
+/-- the identifiers of a statement that become attribute names of python objects or classes -/
+def Stmt.pyNames : Stmt → List Name
+  | .createTable _ attrs => attrs.map (fun a => a.1)
+  | .createRop _ _ _ skeys _ _ _ tkeys _ => skeys ++ tkeys
+  | .insert _ _ (some ns) => ns
+  | _ => []
+
+def touchesInternals (stmts : List Stmt) : Bool := stmts.any (fun st => st.pyNames.any isDunder)
+
+/-- phases 1–4 -/
+def buildCore (u : UC) (stmts : List Stmt) : Except BuildErr BState :=
   match popClasses u stmts BState.empty with
   | .error e => .error e
   | .ok s1 =>
@@ -235,7 +317,27 @@ def build (u : UC) (stmts : List Stmt) : Except BuildErr BState :=
       | .error e => .error e
       | .ok s3 => popInstances u stmts s3
 
-/-! ### the built metamodel as the writers see it -/
+/-- `populate`: phases 1–5 -/
+def buildPhases (u : UC) (stmts : List Stmt) : Except BuildErr BState :=
+  match buildCore u stmts with
+  | .error e => .error e
+  | .ok s => popConnections u s
+
+/-- `build_metamodel`; identifiers of the form `__x__` in attribute positions are outside the model -/
+def build (u : UC) (stmts : List Stmt) : Except BuildErr BState :=
+  if touchesInternals stmts then .error .unmodelled else buildPhases u stmts
+
+/-! ### the built metamodel as the writers see it
+
+  CAVEAT (referential cells).  `populate_connections` ends by deleting every referential attribute from the instance
+  `__dict__`; afterwards `getattr` reads it through the property `formalize` installed, i.e. from the instance at the
+  other end of the link (`None` when there is none).  `toMM` below keeps the value the INSERT statement carried.  Both
+  agree exactly when every row that carries a non-null value in a source key cell is linked across that association to a
+  row with matching key cells (`RefsResolve`, Proofs/SqlLinks.lean) -- true of everything the writers produce from a model
+  built through the API (an unrelated instance reads `None` for its referential attributes, a related one reads the key
+  values of its partner).  A hand-written `INSERT INTO B VALUES (7, 5)` whose 5 refers to no `A` reads 0 in the
+  implementation and 5 here: outside that hypothesis `toMM` is NOT what `getattr` returns.  The reload theorems of
+  Props/C01.lean carry `RefsResolve` for that reason. -/
 
 def cellVal : Cell → Option Val
   | .val v => some v
